@@ -253,3 +253,65 @@ def replay_history(ctx: Ctx, rp: dict, which: set, extra=None) -> dict:
     run_virtual(main)
     out["fails"] = bool(out["oracle"])
     return out
+
+
+
+def due_overtaken(hist: dict, r: dict) -> list:
+    """A delayed message that has become due joins the waiting list at the start of the next consume() call on its queue (every
+    call re-reads the delayed store before it looks at the waiting list; a call that is already polling does so once a
+    second).  From then on it is a waiting message like any other: a message that arrives (is enqueued, comes due, is
+    returned) AFTER that call started may not be handed out to the queue's normal consumer while the promoted one - of a
+    matching topic, alive, not held - is still waiting.  Premise as in C15: one normal consumer per queue."""
+    bad = []
+    cspec = hist["consumers"]
+    normal_per_queue: dict = {}
+    for c, (q, cat, _) in cspec.items():
+        if cat == 0:
+            normal_per_queue[q] = normal_per_queue.get(q, 0) + 1
+    due, arr_t, expiry, queue_of, promo = {}, {}, {}, {}, {}
+    prev_places: dict = {}
+    for n, e in enumerate(r["trace"]):
+        places, msgs = e["after"]["places"], e["after"]["msgs"]
+        if e["op"] in ("put", "requeue") and e.get("applied"):
+            i = e["id"]
+            due[i] = due_of(e["params"], e["t"])
+            expiry[i] = expiry_of(e["params"])
+            arr_t[i] = due[i] if due[i] is not None else e["t"]
+            queue_of[i] = e.get("queue")
+            promo.pop(i, None)
+        elif e["op"] in ("reject", "finish"):
+            for i in ([e["id"]] if e["op"] == "reject" else e.get("returned", [])):
+                arr_t[i] = max(arr_t.get(i, 0), e["t"])
+                due.pop(i, None)                    # returned to the waiting list (or parked again): no longer "due and waiting since T"
+                promo.pop(i, None)
+        elif e["op"] == "consume":
+            q = cspec[e["c"]][0]
+            # this call re-read the delayed store of its queue when it started
+            for i, T in due.items():
+                if T is not None and i not in promo and T < e["t"]:
+                    pl = prev_places.get(i)
+                    if pl and len(pl) == 1 and pl[0][0] in ("delayed", "simple") and pl[0][1] == q:
+                        promo[i] = e["t"]
+            if cspec[e["c"]][1] == 0 and e.get("delivered") and normal_per_queue.get(q) == 1:
+                j = e["delivered"]
+                topics = cspec[e["c"]][2]
+                for i, P in promo.items():
+                    if i == j or arr_t.get(j, 0) <= P:
+                        continue
+                    pl = prev_places.get(i)
+                    if not pl or len(pl) != 1 or pl[0][0] not in ("delayed", "simple") or pl[0][1] != q:
+                        continue
+                    if msgs.get(i) is None or (topics is not None and msgs[i][2] not in topics):
+                        continue
+                    t_poll = e["polls"][-1][0] if e.get("polls") else e["t"]
+                    if expiry.get(i) is not None and expiry[i] <= t_poll:
+                        continue
+                    bad.append(("due_message_overtaken", f"message {i} was due at {due.get(i)} and joined the waiting list with the consume() call that "
+                                f"started at {P}; the call that started at {e['t']} handed out message {j}, which arrived at {arr_t.get(j)} - after "
+                                f"that - while {i} was still waiting ({pl[0][0]})",
+                                {"step": n, "op": {k: v for k, v in e.items() if k not in ("after", "params", "got", "polls")}}))
+                    break
+                due.pop(j, None)
+                promo.pop(j, None)
+        prev_places = places
+    return bad
